@@ -23,6 +23,7 @@ def run(ctx):
     t = bc.renumber(vlib.read_ndjson(d + "/t.ndjson"), 1000)
     ev = g + t
     vlib.note_events(ctx, [e for e in ev if e["op"] != "bip39.SetWordList"])
+    bc.caller_histories(ctx, binp, ev, ["bip39.EntropyToMnemonic", "bip39.MnemonicToEntropy"], "real bip39 result differs from the Bip39 specification")
     bc.judge(ctx, binp, ev, "real bip39 result differs from the Bip39 specification (sentence, acceptance, entropy or error kind)")
     return vlib.finish(ctx, LEVEL, RULE, bc.ASSUME, matchers=bc.MATCHERS,
                        technique="TLA+ spec Bip39 (parameterised bit codec); TLC exhaustive scaled model; TLC-chosen boundary entropies replayed; stateful trace validation with SHA-256 facts; pinned word lists")
